@@ -462,6 +462,13 @@ def install(P):
     def _mkdir_p(ctx, c):
         w = ctx.world
         path = pstr(c.args[0])
+        e0, phys0 = w.resolve(path, False)
+        if e0 is None and w.kind_is(w.get(phys0), LINK, f"mkdirp-link:{phys0}"):
+            # mkdir(2) does not follow a symlink in the last component: EEXIST, then std checks is_dir() (which follows)
+            e1, phys1 = w.resolve(path, True)
+            if e1 is None and w.kind_is(w.get(phys1), DIR, f"mkdirp-linkdir:{phys1}"):
+                return Ok()
+            return ioerr("Other", "EEXIST")
         e, phys = w.resolve(path, True)
         if e is None:
             if w.kind_is(w.get(phys), DIR, f"mkdirp-isdir:{phys}"):
